@@ -106,6 +106,8 @@ class Interp:
         _absent = object()
         self.g.setdefault('hasattr', lambda o, n: self._getattr(o, n, _absent) is not _absent)
         self.g.setdefault('None', None)
+        self.g.setdefault('NotImplemented', NotImplemented)
+        self.g.setdefault('Ellipsis', Ellipsis)
         for nm, f in dict(all=all, any=any, tuple=tuple, dict=dict, set=set, frozenset=frozenset, sorted=sorted,
                           zip=zip, enumerate=enumerate, map=map,
                           filter=filter, list=list, str=str, int=int, range=range,
